@@ -305,7 +305,7 @@ impl Setup {
             j = (j + 1) % n;
         }
         let pj = self.net.peer(j);
-        let w = [14u32, 12, 5, 5, 3, 4, 4, 6, 5, 6, 8, 6, 7, 7, 5, 8, 3, 1, 1, 30];
+        let w = [14u32, 12, 5, 5, 3, 4, 4, 6, 5, 6, 8, 6, 7, 7, 5, 8, 3, 1, 1, 6, 30];
         match rng.weighted(&w) {
             0 => {
                 let a = self.good_addr(rng, j);
@@ -428,6 +428,25 @@ impl Setup {
                     self.net.swarm(i).remove_listener(id);
                     self.net.touch(i);
                 }
+            }
+            19 => {
+                // behaviour notifies / closes towards peers it may not be connected to (or a connection id that does
+                // not exist): none of this may change any view
+                if !self.net.nodes[i].alive() {
+                    return;
+                }
+                self.mon.op("behaviour_notify_or_close_unconnected");
+                let peer = if rng.chance(1, 4) { PeerId::random() } else { pj };
+                let bogus = ConnectionId::new_unchecked(rng.range(900_000_000, 900_000_100) as usize);
+                let ev = match rng.usize(4) {
+                    0 => ToSwarm::NotifyHandler { peer_id: peer, handler: libp2p_swarm::NotifyHandler::Any, event: vnet::ProbeIn { emitter: i as u8, seq: rng.next_u64() } },
+                    1 => ToSwarm::NotifyHandler { peer_id: peer, handler: libp2p_swarm::NotifyHandler::One(bogus), event: vnet::ProbeIn { emitter: i as u8, seq: rng.next_u64() } },
+                    2 => ToSwarm::CloseConnection { peer_id: peer, connection: CloseConnection::One(bogus) },
+                    _ => ToSwarm::CloseConnection { peer_id: PeerId::random(), connection: CloseConnection::All },
+                };
+                self.ctl[i].push(ev);
+                self.run_steps(rng.range(1, 6));
+                self.mon.compare_views(&mut self.net, i, "after behaviour NotifyHandler/CloseConnection towards an unconnected peer");
             }
             _ => {
                 let k = rng.range(1, 25);
